@@ -28,6 +28,25 @@ BASELINE_FAIL = {"tests/marker/test_evaluation.py::test_evaluate_extra[platform_
                  "tests/specifier/test_arbitrary.py::test_arbitrary_unsupported[===abc->=1-and]"}
 
 
+DEPENDS = {
+    "tags": ["C08", "C09", "C16", "C18"],
+    "markers": ["C02", "C03", "C07", "C10", "C11", "C12", "C13", "C14", "C15"],
+    "specifiers": ["C01", "C02", "C03", "C04", "C05", "C06", "C07", "C08", "C10", "C11", "C12", "C13", "C14", "C15", "C16", "C17", "C19"],
+    "utils": [c for c in ALL if c not in ("C09", "C18")],
+}
+
+
+def relevant_checks(patch):
+    """checks whose analysed modules are touched by the patch (each check reads only part of src/dep_logic)"""
+    out = set()
+    for line in pathlib.Path(patch).read_text().splitlines():
+        if line.startswith("+++ b/src/dep_logic/"):
+            rel = line[len("+++ b/src/dep_logic/"):]
+            top = rel.split("/")[0]
+            out.update(DEPENDS.get(top, DEPENDS["utils"] if top == "utils.py" else ALL))
+    return sorted(out) or ALL
+
+
 def sh(cmd, cwd=None, env=None, timeout=1800):
     p = subprocess.run(cmd, cwd=cwd, env=env, capture_output=True, text=True, timeout=timeout)
     return p.returncode, p.stdout + p.stderr
@@ -94,7 +113,9 @@ def main():
     with concurrent.futures.ThreadPoolExecutor(a.jobs) as ex:
         for d in dirs:
             meta = json.loads((d / "meta.json").read_text()) if (d / "meta.json").exists() else {}
-            if a.checks == "all":
+            if a.checks == "auto":
+                checks = relevant_checks(d / "patch.diff")
+            elif a.checks == "all":
                 checks = ALL
             elif a.checks == "own":
                 checks = [meta.get("property")] if meta.get("property") else ALL
